@@ -2422,11 +2422,15 @@ class SEVM:
         self.handle_insufficient_fund_case(pranked_caller, fund, message, ex, stack)
 
         def send_callvalue(condition: BoolRef | None = None) -> None:
-            # no balance update for CALLCODE which transfers to itself
             if op == OP_CALL:
                 # TODO: revert if context is static
                 # NOTE: we cannot use `to_alias` here because it could be None
                 self.transfer_value(ex, pranked_caller, to, fund, condition)
+
+            elif op == OP_CALLCODE:
+                # CALLCODE transfers to itself: the balances stay as they are, but the evm requires
+                # enough balance even for a self-transfer (the other case is the insufficient-fund branch)
+                self.transfer_value(ex, pranked_caller, pranked_caller, fund, condition)
 
         def call_known(to: Address) -> None:
             # backup current state
